@@ -13,6 +13,8 @@ import (
 	"encoding/json"
 	"fmt"
 	"sort"
+	"math"
+	"math/big"
 	"strconv"
 	"strings"
 
@@ -262,6 +264,20 @@ func (g *vgen) toInternal(te *gq.TypeExpr, v interface{}) interface{} {
 var nonFinite = []string{"NaN", "nan", "NAN", "nAn", "Inf", "inf", "INF", "+Inf", "+inf", "-inf", "-Inf", "-INF", "Infinity", "infinity",
 	"+Infinity", "-INFINITY", "-infinity", "iNfInItY", "+nan", "-nan", "infin", "nanx", "in", "+", "-"}
 
+// integers around and beyond the float64-exact / int64 / uint64 boundaries (Float positions: literal and JSON number)
+var bigInts = func() []string {
+	var out []string
+	add := func(b *big.Int) { out = append(out, b.String(), new(big.Int).Neg(b).String()) }
+	p := func(e uint) *big.Int { return new(big.Int).Lsh(big.NewInt(1), e) }
+	ten := func(e int64) *big.Int { return new(big.Int).Exp(big.NewInt(10), big.NewInt(e), nil) }
+	one := big.NewInt(1)
+	for _, b := range []*big.Int{new(big.Int).Sub(p(53), one), p(53), new(big.Int).Add(p(53), one), new(big.Int).Sub(p(63), one), p(63),
+		new(big.Int).Add(p(63), one), new(big.Int).Sub(p(64), one), p(64), ten(15), ten(18), ten(19), ten(20), ten(22), ten(30), ten(100), ten(308), p(1000)} {
+		add(b)
+	}
+	return out
+}()
+
 var strPool = []string{"s", "hello", "x y", "", "5", "abc", "true", "RED", "A"}
 
 func (g *vgen) val(te *gq.TypeExpr, depth int, allowNull bool) interface{} {
@@ -353,6 +369,10 @@ func (g *vgen) val(te *gq.TypeExpr, depth int, allowNull bool) interface{} {
 		if r.Chance(1, 2) {
 			return randDec(r)
 		}
+		if r.Chance(1, 6) {
+			g.tag("v:float-big-int")
+			return json.Number(r.Pick(bigInts))
+		}
 		return r.Range(-30, 3000000)
 	case "String":
 		if bad {
@@ -433,8 +453,13 @@ func (g *vgen) val(te *gq.TypeExpr, depth int, allowNull bool) interface{} {
 			}
 		}
 		if bad {
-			g.tag("v:unknown-field")
-			out[r.Pick([]string{"zz", "Req", "opt2"})] = 1
+			if r.Chance(1, 2) {
+				g.tag("v:unknown-field")
+				out[r.Pick([]string{"zz", "Req", "opt2"})] = 1
+			} else {
+				g.tag("v:unknown-field-null")
+				out[r.Pick([]string{"zz", "Req", "opt2", "limt"})] = nil
+			}
 		}
 		return out
 	}
@@ -511,7 +536,10 @@ func (g *lgen) lit(te *gq.TypeExpr, depth int, top bool) string {
 		}
 		return strconv.Itoa(r.Range(-50, 1000))
 	case "Float":
-		switch r.Intn(4) {
+		switch r.Intn(5) {
+		case 4:
+			g.tag("l:float-big-int-literal")
+			return r.Pick(bigInts)
 		case 0:
 			return strconv.Itoa(r.Range(-30, 3000000000))
 		case 1:
@@ -802,12 +830,125 @@ func jsonNumbers(v interface{}) interface{} {
 	return v
 }
 
+// exoticNils replaces the nils of a value by other nullish Go values the public API can carry in VariableValues
+// (isNullish: NaN, typed nil pointers); the library must treat all of them like null. The walk is directed by the
+// declared type and stops at leaf types, so that a wrong-kind composite given to String/ID (stringified with %v,
+// implementation-defined) keeps its plain nils.
+func exoticNils(s *gq.SchemaDesc, te *gq.TypeExpr, v interface{}, n *int) interface{} {
+	if v == nil {
+		*n++
+		switch *n % 4 {
+		case 0:
+			return nil
+		case 1:
+			return math.NaN()
+		case 2:
+			return (*int)(nil)
+		}
+		return (*string)(nil)
+	}
+	if te == nil {
+		return v
+	}
+	switch te.Kind {
+	case "nonNull":
+		return exoticNils(s, te.Of, v, n)
+	case "list":
+		if xs, ok := v.([]interface{}); ok {
+			out := make([]interface{}, len(xs))
+			for i, e := range xs {
+				out[i] = exoticNils(s, te.Of, e, n)
+			}
+			return out
+		}
+		return exoticNils(s, te.Of, v, n)
+	}
+	td := s.Type(te.Name)
+	m, ok := v.(map[string]interface{})
+	if td == nil || td.Kind != "INPUT_OBJECT" || !ok {
+		return v
+	}
+	out := map[string]interface{}{}
+	keys := make([]string, 0, len(m))
+	for k := range m {
+		keys = append(keys, k)
+	}
+	sort.Strings(keys)
+	for _, k := range keys {
+		var fe *gq.TypeExpr
+		for _, f := range td.InputFields {
+			if f.Name == k {
+				fe, _ = gq.ParseType(f.Type)
+			}
+		}
+		out[k] = exoticNils(s, fe, m[k], n)
+	}
+	return out
+}
+
+// fromWireBig is gq.FromWire plus integral json.Numbers beyond int64 (-> float64, as encoding/json would deliver them)
+func fromWireBig(v interface{}) interface{} {
+	switch x := v.(type) {
+	case json.Number:
+		if _, err := x.Int64(); err != nil {
+			f, _ := strconv.ParseFloat(x.String(), 64)
+			return f
+		}
+	case []interface{}:
+		out := make([]interface{}, len(x))
+		for i, e := range x {
+			out[i] = fromWireBig(e)
+		}
+		return out
+	case map[string]interface{}:
+		if _, ok := x["$dec"]; !ok {
+			out := map[string]interface{}{}
+			for k, e := range x {
+				out[k] = fromWireBig(e)
+			}
+			return out
+		}
+	}
+	return gq.FromWire(v)
+}
+
+// mode: "int" | "json" (all numbers as float64), optionally followed by "+nil" (nulls as exotic nullish Go values)
 func goValue(wire interface{}, mode string) interface{} {
-	v := gq.FromWire(wire)
-	if mode == "json" {
+	v := fromWireBig(wire)
+	if strings.HasPrefix(mode, "json") {
 		v = jsonNumbers(v)
 	}
 	return v
+}
+
+// goValueT additionally applies the "+nil" mode, directed by the declared type
+func goValueT(s *gq.SchemaDesc, typ string, wire interface{}, mode string) interface{} {
+	v := goValue(wire, mode)
+	if strings.HasSuffix(mode, "+nil") {
+		te, _ := gq.ParseType(typ)
+		n := 0
+		v = exoticNils(s, te, v, &n)
+	}
+	return v
+}
+
+// goInputs converts the variable assignment of a document, typed by its variable definitions
+func goInputs(s *gq.SchemaDesc, doc *ast.Document, wire map[string]interface{}, mode string) map[string]interface{} {
+	types := map[string]string{}
+	for _, d := range doc.Definitions {
+		if op, ok := d.(*ast.OperationDefinition); ok {
+			for _, vd := range op.VariableDefinitions {
+				if vd != nil && vd.Variable != nil && vd.Variable.Name != nil && vd.Type != nil {
+					types[vd.Variable.Name.Value] = typeText(vd.Type)
+				}
+			}
+		}
+	}
+	out := map[string]interface{}{}
+	for k, v := range wire {
+		out[k] = goValueT(s, types[k], v, mode)
+	}
+	return out
 }
 
 func goVars(wire map[string]interface{}, mode string) map[string]interface{} {
@@ -879,7 +1020,72 @@ type execResp struct {
 	VarsProvided  bool   `json:"varsProvided"`
 }
 
-func canonGo(v interface{}) string { return hx.Canon(gq.ToWire(v)) }
+// Numbers of magnitude >= 2^53 are compared as float64 values (the Float type IS an IEEE double: 2^53+1 and 2^53 are
+// the same Float): both sides are rendered as "≈f64:<shortest decimal of the double>". Smaller numbers stay exact.
+const two53 = 9007199254740992
+
+func f64Marker(x float64) interface{} { return "≈f64:" + strconv.FormatFloat(x, 'g', -1, 64) }
+
+// toWireG renders a Go value produced by the library (gq.ToWire for everything but big floats / ints)
+func toWireG(v interface{}) interface{} {
+	switch x := v.(type) {
+	case float64:
+		if x == math.Trunc(x) && !math.IsInf(x, 0) && math.Abs(x) >= 1e15 {
+			if math.Abs(x) < two53 {
+				return int(x)
+			}
+			return f64Marker(x)
+		}
+	case int:
+		if x >= two53 || x <= -two53 {
+			return f64Marker(float64(x))
+		}
+	case []interface{}:
+		out := make([]interface{}, len(x))
+		for i, e := range x {
+			out[i] = toWireG(e)
+		}
+		return out
+	case map[string]interface{}:
+		out := map[string]interface{}{}
+		for k, e := range x {
+			out[k] = toWireG(e)
+		}
+		return out
+	}
+	return gq.ToWire(v)
+}
+
+// canonBig applies the same rendering to a wire value decoded from the model's answer (json.Number aware)
+func canonBig(v interface{}) interface{} {
+	switch x := v.(type) {
+	case json.Number:
+		if i, err := x.Int64(); err == nil && i < two53 && i > -two53 {
+			return x
+		}
+		if strings.ContainsAny(x.String(), ".eE") {
+			return x
+		}
+		f, _ := strconv.ParseFloat(x.String(), 64)
+		return f64Marker(f)
+	case []interface{}:
+		out := make([]interface{}, len(x))
+		for i, e := range x {
+			out[i] = canonBig(e)
+		}
+		return out
+	case map[string]interface{}:
+		out := map[string]interface{}{}
+		for k, e := range x {
+			out[k] = canonBig(e)
+		}
+		return out
+	}
+	return v
+}
+
+func canonGo(v interface{}) string { return hx.Canon(toWireG(v)) }
+func canonM(v interface{}) string  { return hx.Canon(canonBig(v)) }
 
 // baseHooks satisfies NewSchema's demand for ResolveType / IsTypeOf functions on the generated abstract types.
 func baseHooks() gq.Hooks {
@@ -959,7 +1165,7 @@ func (h *harness) pointWith(c pointCase, b *gq.Built, tags map[string]bool) {
 	}
 	nontrivial := false
 	if c.HasValue {
-		gv := goValue(c.Value, c.NumMode)
+		gv := goValueT(c.Schema, c.Type, c.Value, c.NumMode)
 		var gValid bool
 		var gCoerced interface{}
 		if p := guard(func() {
@@ -970,7 +1176,7 @@ func (h *harness) pointWith(c pointCase, b *gq.Built, tags map[string]bool) {
 			fail("isValidInputValue / coerceValue panicked")
 			return
 		}
-		real["validInput"], real["coerce"] = gValid, gq.ToWire(gCoerced)
+		real["validInput"], real["coerce"] = gValid, toWireG(gCoerced)
 		if m.ValidInput == nil || m.Strict == nil || m.SpecVar == nil || m.Conformant == nil {
 			run.CheckError("driver answer lacks the value part")
 			return
@@ -981,7 +1187,7 @@ func (h *harness) pointWith(c pointCase, b *gq.Built, tags map[string]bool) {
 			fail(fmt.Sprintf("isValidInputValue: real %v, model %v", gValid, *m.ValidInput))
 			return
 		}
-		if canonGo(gCoerced) != hx.Canon(m.Coerce) {
+		if canonGo(gCoerced) != canonM(m.Coerce) {
 			fail("coerceValue: real result differs from the model")
 			return
 		}
@@ -991,7 +1197,7 @@ func (h *harness) pointWith(c pointCase, b *gq.Built, tags map[string]bool) {
 				fail(fmt.Sprintf("strictly typed value: isValidInputValue says %v but the specification's input coercion says ok=%v (%s)", gValid, m.SpecVar.Ok, m.SpecVar.Err))
 				return
 			}
-			if gValid && canonGo(gCoerced) != hx.Canon(m.SpecVar.Val) {
+			if gValid && canonGo(gCoerced) != canonM(m.SpecVar.Val) {
 				fail("strictly typed valid value: coerceValue differs from the specification's input coercion")
 				return
 			}
@@ -1021,7 +1227,7 @@ func (h *harness) pointWith(c pointCase, b *gq.Built, tags map[string]bool) {
 				fail("valueFromAST panicked on the literal form of a conformant value")
 				return
 			}
-			real["literalText"], real["literalFromAST"] = text, gq.ToWire(gFrom)
+			real["literalText"], real["literalFromAST"] = text, toWireG(gFrom)
 			if !gValid {
 				fail("a conformant value is rejected by isValidInputValue")
 				return
@@ -1030,7 +1236,7 @@ func (h *harness) pointWith(c pointCase, b *gq.Built, tags map[string]bool) {
 				fail("literal_variable_agree: the literal form of a conformant value evaluates (valueFromAST) to something else than the value coerces to (coerceValue)")
 				return
 			}
-			if canonGo(gFrom) != hx.Canon(m.EmbedFromAST) {
+			if canonGo(gFrom) != canonM(m.EmbedFromAST) {
 				fail("valueFromAST on the literal form differs from the model's valueFromAST (embed v)")
 				return
 			}
@@ -1053,7 +1259,7 @@ func (h *harness) pointWith(c pointCase, b *gq.Built, tags map[string]bool) {
 			fail("isValidLiteralValue / valueFromAST panicked")
 			return
 		}
-		real["validLit"], real["fromAST"], real["fromASTNilVars"] = gValid, gq.ToWire(gFrom), gq.ToWire(gFromNil)
+		real["validLit"], real["fromAST"], real["fromASTNilVars"] = gValid, toWireG(gFrom), toWireG(gFromNil)
 		if m.ValidLit == nil || m.SpecLit == nil || m.VarsProvided == nil || m.HasVars == nil {
 			run.CheckError("driver answer lacks the literal part")
 			return
@@ -1064,11 +1270,11 @@ func (h *harness) pointWith(c pointCase, b *gq.Built, tags map[string]bool) {
 			fail(fmt.Sprintf("isValidLiteralValue: real %v, model %v", gValid, *m.ValidLit))
 			return
 		}
-		if canonGo(gFrom) != hx.Canon(m.FromAST) {
+		if canonGo(gFrom) != canonM(m.FromAST) {
 			fail("valueFromAST: real result differs from the model")
 			return
 		}
-		if canonGo(gFromNil) != hx.Canon(m.FromASTNoVars) {
+		if canonGo(gFromNil) != canonM(m.FromASTNoVars) {
 			fail("valueFromAST with a nil variable map: real result differs from the model")
 			return
 		}
@@ -1081,7 +1287,7 @@ func (h *harness) pointWith(c pointCase, b *gq.Built, tags map[string]bool) {
 				fail(fmt.Sprintf("isValidLiteralValue says %v but the specification's literal coercion says ok=%v (%s)", gValid, m.SpecLit.Ok, m.SpecLit.Err))
 				return
 			}
-			if gValid && canonGo(gFrom) != hx.Canon(m.SpecLit.Val) {
+			if gValid && canonGo(gFrom) != canonM(m.SpecLit.Val) {
 				fail("valid literal: valueFromAST differs from the specification's literal coercion")
 				return
 			}
@@ -1151,8 +1357,8 @@ func (h *harness) doQuery(c execCase, query string) (rec *recorded, res *graphql
 		if typeName == c.Schema.Query && fieldName == "cf" {
 			return func(p graphql.ResolveParams) (interface{}, error) {
 				rec.calls++
-				rec.args = gq.ToWire(map[string]interface{}(p.Args))
-				rec.vars = gq.ToWire(p.Info.VariableValues)
+				rec.args = toWireG(map[string]interface{}(p.Args))
+				rec.vars = toWireG(p.Info.VariableValues)
 				return "x", nil
 			}
 		}
@@ -1169,7 +1375,7 @@ func (h *harness) doQuery(c execCase, query string) (rec *recorded, res *graphql
 	}
 	panicked = guard(func() {
 		valid = graphql.ValidateDocument(&b.Schema, doc, nil).IsValid
-		res = graphql.Do(graphql.Params{Schema: b.Schema, RequestString: query, VariableValues: goVars(c.Inputs, c.NumMode)})
+		res = graphql.Do(graphql.Params{Schema: b.Schema, RequestString: query, VariableValues: goInputs(c.Schema, doc, c.Inputs, c.NumMode)})
 	})
 	return rec, res, valid, panicked
 }
@@ -1201,8 +1407,8 @@ func (h *harness) planTwice(c execCase, doc *ast.Document) {
 		if typeName == c.Schema.Query && fieldName == "cf" {
 			return func(p graphql.ResolveParams) (interface{}, error) {
 				rec.calls++
-				rec.args = gq.ToWire(map[string]interface{}(p.Args))
-				rec.vars = gq.ToWire(p.Info.VariableValues)
+				rec.args = toWireG(map[string]interface{}(p.Args))
+				rec.vars = toWireG(p.Info.VariableValues)
 				return "x", nil
 			}
 		}
@@ -1223,7 +1429,7 @@ func (h *harness) planTwice(c execCase, doc *ast.Document) {
 		*rec = recorded{}
 		var res *graphql.Result
 		pan := guard(func() {
-			res = graphql.ExecutePlan(plan, graphql.ExecuteParams{Schema: b.Schema, AST: doc, Args: goVars(inputs, c.NumMode)})
+			res = graphql.ExecutePlan(plan, graphql.ExecuteParams{Schema: b.Schema, AST: doc, Args: goInputs(c.Schema, doc, inputs, c.NumMode)})
 		})
 		m, raw, ok := h.askExec(c, doc, inputs)
 		if !ok {
@@ -1251,15 +1457,15 @@ func (h *harness) planTwice(c execCase, doc *ast.Document) {
 			fail(fmt.Sprintf("variables coercible (model) but the resolver ran %d times", rec.calls))
 			return
 		}
-		if hx.Canon(rec.vars) != hx.Canon(m.Vars.Val) {
+		if hx.Canon(rec.vars) != canonM(m.Vars.Val) {
 			fail("Info.VariableValues differs from the model's getVariableValues")
 			return
 		}
-		if hx.Canon(rec.args) != hx.Canon(m.Args) {
+		if hx.Canon(rec.args) != canonM(m.Args) {
 			fail("p.Args differs from the model's getArgumentValues (plan-time pre-coercion of an argument that depends on variables?)")
 			return
 		}
-		if m.LitsValid && m.VarsProvided && m.SpecArgs != nil && m.SpecArgs.Ok && hx.Canon(rec.args) != hx.Canon(m.SpecArgs.Val) {
+		if m.LitsValid && m.VarsProvided && m.SpecArgs != nil && m.SpecArgs.Ok && hx.Canon(rec.args) != canonM(m.SpecArgs.Val) {
 			fail("p.Args differs from the specification's CoerceArgumentValues")
 			return
 		}
@@ -1357,19 +1563,19 @@ func (h *harness) exec(c execCase, tags map[string]bool) {
 		fail("strictly typed inputs: the request is executed although the specification refuses a variable: " + m.SpecVars.Err)
 		return
 	}
-	if hx.Canon(rec.vars) != hx.Canon(m.Vars.Val) {
+	if hx.Canon(rec.vars) != canonM(m.Vars.Val) {
 		fail("Info.VariableValues differs from the model's getVariableValues")
 		return
 	}
-	if m.StrictInputs && hx.Canon(rec.vars) != hx.Canon(m.SpecVars.Val) {
+	if m.StrictInputs && hx.Canon(rec.vars) != canonM(m.SpecVars.Val) {
 		fail("strictly typed inputs: Info.VariableValues differs from the specification's CoerceVariableValues")
 		return
 	}
-	if hx.Canon(rec.args) != hx.Canon(m.Args) {
+	if hx.Canon(rec.args) != canonM(m.Args) {
 		fail("p.Args differs from the model's getArgumentValues")
 		return
 	}
-	if hx.Canon(m.Planned) != hx.Canon(m.Args) {
+	if canonM(m.Planned) != canonM(m.Args) {
 		run.Violation("model: plannedArgs differs from getArgumentValues (theorem planned_args_eq contradicted: model/driver fault)", map[string]interface{}{"case": c, "model": raw}, true)
 		return
 	}
@@ -1382,7 +1588,7 @@ func (h *harness) exec(c execCase, tags map[string]bool) {
 			fail("valid literals and provided variables, but the specification's argument coercion fails")
 			return
 		}
-		if hx.Canon(rec.args) != hx.Canon(m.SpecArgs.Val) {
+		if hx.Canon(rec.args) != canonM(m.SpecArgs.Val) {
 			fail("p.Args differs from the specification's CoerceArgumentValues")
 			return
 		}
@@ -1429,6 +1635,9 @@ func (h *harness) genPoint(r *hx.Rng, s *gq.SchemaDesc, idx int) (pointCase, map
 		}
 		c.HasValue = true
 		c.Value = g.val(te, r.Range(0, 3), true)
+		if r.Chance(1, 6) {
+			c.NumMode += "+nil"
+		}
 	} else {
 		g := &lgen{r: r, s: s, mut: []int{0, 1, 3}[r.Intn(3)], varP: []int{0, 0, 2}[r.Intn(3)], tags: tags}
 		c.HasLit = true
@@ -1490,6 +1699,9 @@ func (h *harness) genExec(r *hx.Rng, s *gq.SchemaDesc, idx int) (execCase, map[s
 	c := execCase{Kind: "exec", Schema: withField(s, fd), NumMode: "int", Inputs: map[string]interface{}{}}
 	if r.Chance(1, 5) {
 		c.NumMode = "json"
+	}
+	if r.Chance(1, 6) {
+		c.NumMode += "+nil"
 	}
 	// second argument: given as a literal, or left out (argument default or nothing)
 	bText := ""
@@ -1777,6 +1989,108 @@ func (h *harness) nonFiniteSweep(s *gq.SchemaDesc) {
 	}
 }
 
+// bigFloatSweep enumerates the class "integer of large magnitude at a Float position" (2^53±1 … 2^64, 10^15 … 10^308,
+// 2^1000, and their negatives) at every nesting position, as an inline literal (Int token read by Float.ParseLiteral)
+// and as a JSON number through a variable (Go int where it fits, float64 otherwise, and all-float64), pointwise and end
+// to end (variable value, variable default, inline literal, literal-vs-variable agreement).
+func (h *harness) bigFloatSweep(s *gq.SchemaDesc) {
+	nf := gq.TypeDesc{Kind: "INPUT_OBJECT", Name: "NF", InputFields: []gq.ArgDesc{{Name: "i", Type: "Int"}, {Name: "f", Type: "Float"},
+		{Name: "li", Type: "[Int]"}, {Name: "lf", Type: "[Float!]"}, {Name: "n", Type: "NF"}, {Name: "ri", Type: "Int!"}}}
+	s2 := *s
+	s2.Types = append(append([]gq.TypeDesc{}, s.Types...), nf)
+	b, err := gq.Build(&s2, baseHooks())
+	if err != nil {
+		h.run.CheckError("schema does not build: " + err.Error())
+		return
+	}
+	type pos struct {
+		typ string
+		val func(x interface{}) interface{}
+		lit func(x string) string
+	}
+	obj := func(k string, v interface{}) map[string]interface{} { return map[string]interface{}{"ri": 1, k: v} }
+	positions := []pos{
+		{"Float", func(x interface{}) interface{} { return x }, func(x string) string { return x }},
+		{"Float!", func(x interface{}) interface{} { return x }, func(x string) string { return x }},
+		{"[Float]", func(x interface{}) interface{} { return []interface{}{1, x, dec(25, 1)} }, func(x string) string { return "[1, " + x + ", 2.5]" }},
+		{"[Float]", func(x interface{}) interface{} { return x }, func(x string) string { return x }},
+		{"[[Float!]]", func(x interface{}) interface{} { return []interface{}{[]interface{}{x}} }, func(x string) string { return "[[" + x + "]]" }},
+		{"NF", func(x interface{}) interface{} { return obj("f", x) }, func(x string) string { return "{ri: 1, f: " + x + "}" }},
+		{"NF", func(x interface{}) interface{} { return obj("lf", []interface{}{x}) }, func(x string) string { return "{lf: [" + x + "], ri: 1}" }},
+		{"NF!", func(x interface{}) interface{} { return obj("n", obj("f", x)) }, func(x string) string { return "{ri: 1, n: {ri: 1, f: " + x + "}}" }},
+		{"[NF]", func(x interface{}) interface{} { return []interface{}{obj("f", 3), obj("f", x)} }, func(x string) string { return "[{ri: 1, f: 3}, {ri: 1, f: " + x + "}]" }},
+	}
+	for pi, p := range positions {
+		for _, x := range bigInts {
+			tags := map[string]bool{"sweep:big-int-at-Float": true, fmt.Sprintf("sweep:position-%d", pi): true}
+			h.pointWith(pointCase{Kind: "point", Schema: &s2, Type: p.typ, HasLit: true, LitText: p.lit(x), Vars: map[string]interface{}{}, NumMode: "int"}, b, tags)
+			// JSON mode: the client's number is a double already — give both sides the double's exact integer
+			f, _ := strconv.ParseFloat(x, 64)
+			exact, _ := new(big.Float).SetFloat64(f).Int(nil)
+			h.pointWith(pointCase{Kind: "point", Schema: &s2, Type: p.typ, HasValue: true, Value: p.val(json.Number(x)), NumMode: "int"}, b, tags)
+			h.pointWith(pointCase{Kind: "point", Schema: &s2, Type: p.typ, HasValue: true, Value: p.val(json.Number(exact.String())), NumMode: "json"}, b, tags)
+			if h.run.TooManyViolations() {
+				return
+			}
+		}
+	}
+	for i, x := range bigInts {
+		p := positions[i%len(positions)]
+		ws := withField(&s2, gq.FieldDesc{Name: "cf", Type: "String", Args: []gq.ArgDesc{{Name: "a", Type: p.typ}}})
+		tags := map[string]bool{"sweep:big-int-at-Float-e2e": true}
+		h.exec(execCase{Kind: "exec", Schema: ws, Query: "query($v: " + p.typ + ") { cf(a: $v) }", LitQuery: "{ cf(a: " + p.lit(x) + ") }", NumMode: "int",
+			Inputs: map[string]interface{}{"v": p.val(json.Number(x))}, Inputs2: map[string]interface{}{"v": p.val(3)}}, tags)
+		h.exec(execCase{Kind: "exec", Schema: ws, Query: "{ cf(a: " + p.lit(x) + ") }", NumMode: "int", Inputs: map[string]interface{}{}}, tags)
+		if !strings.HasSuffix(p.typ, "!") {
+			h.exec(execCase{Kind: "exec", Schema: ws, Query: "query($v: " + p.typ + " = " + p.lit(x) + ") { cf(a: $v) }", NumMode: "int",
+				Inputs: map[string]interface{}{}, Inputs2: map[string]interface{}{"v": p.val(json.Number(x))}}, tags)
+		}
+	}
+}
+
+// unknownNullSweep enumerates the class "unknown input field whose value is nullish" (JSON null, and through the Go API
+// NaN / typed nil pointers): alone, next to valid fields, nested in another input object, inside list items, in a
+// list field — pointwise and end to end; every one of them must be refused like any other unknown field.
+func (h *harness) unknownNullSweep(s *gq.SchemaDesc) {
+	b, err := gq.Build(s, baseHooks())
+	if err != nil {
+		h.run.CheckError("schema does not build: " + err.Error())
+		return
+	}
+	ok := func() map[string]interface{} { return map[string]interface{}{"m6": true} }
+	with := func(m map[string]interface{}, k string, v interface{}) map[string]interface{} { m[k] = v; return m }
+	type shape struct {
+		typ string
+		val func(k string) interface{}
+	}
+	shapes := []shape{
+		{"XM", func(k string) interface{} { return with(ok(), k, nil) }},
+		{"XM!", func(k string) interface{} { return with(with(with(ok(), "m1", "s"), "m0", 7), k, nil) }},
+		{"XM", func(k string) interface{} { return map[string]interface{}{k: nil} }},
+		{"XM", func(k string) interface{} { return with(ok(), "m4", with(ok(), k, nil)) }},
+		{"XM", func(k string) interface{} { return with(ok(), "m4", with(ok(), "m4", with(ok(), k, nil))) }},
+		{"[XM]", func(k string) interface{} { return []interface{}{ok(), with(ok(), k, nil)} }},
+		{"[XM!]!", func(k string) interface{} { return with(ok(), k, nil) }},
+		{"[[XM]]", func(k string) interface{} { return []interface{}{[]interface{}{with(ok(), k, nil)}} }},
+		{"XM", func(k string) interface{} { return with(ok(), "m5", []interface{}{ok(), with(ok(), k, nil)}) }},
+		{"XM", func(k string) interface{} { return with(with(ok(), k, nil), "m1", nil) }},
+	}
+	for si, sh := range shapes {
+		for _, k := range []string{"limt", "zz", "M6", "m7"} {
+			for _, mode := range []string{"int", "int+nil", "json+nil"} {
+				tags := map[string]bool{"sweep:unknown-field-nullish": true, fmt.Sprintf("sweep:shape-%d", si): true, "nil-mode:" + mode: true}
+				h.pointWith(pointCase{Kind: "point", Schema: s, Type: sh.typ, HasValue: true, Value: sh.val(k), NumMode: mode}, b, tags)
+				ws := withField(s, gq.FieldDesc{Name: "cf", Type: "String", Args: []gq.ArgDesc{{Name: "a", Type: sh.typ}}})
+				h.exec(execCase{Kind: "exec", Schema: ws, Query: "query($v: " + sh.typ + ") { cf(a: $v) }", NumMode: mode,
+					Inputs: map[string]interface{}{"v": sh.val(k)}, Inputs2: map[string]interface{}{"v": sh.val("m1")}}, tags)
+				if h.run.TooManyViolations() {
+					return
+				}
+			}
+		}
+	}
+}
+
 // fixed probes: the D-05a / D-05b / D-05c shapes (all repaired in /repo: they must pass)
 func (h *harness) probes(s *gq.SchemaDesc) {
 	tags := map[string]bool{"probe": true}
@@ -1853,6 +2167,8 @@ func main() {
 			if i == 0 {
 				h.probes(s)
 				h.nonFiniteSweep(s)
+				h.bigFloatSweep(s)
+				h.unknownNullSweep(s)
 			}
 		}
 		r := hx.Fork(run.Seed, i)
